@@ -1236,9 +1236,137 @@ def plan_C15(tier, rng):
     return cs, [], {"input_families": cs.tags, "configurations": ["default", "rf"], "phase2": phase2}
 
 
+# ================================================================================================
+# C18
+
+FLAG_SETTERS = ["required_integer_digits", "required_fraction_digits", "required_exponent_digits", "required_mantissa_digits",
+                "no_positive_mantissa_sign", "required_mantissa_sign", "no_exponent_notation", "no_positive_exponent_sign",
+                "required_exponent_sign", "no_exponent_without_fraction", "no_special", "case_sensitive_special",
+                "no_integer_leading_zeros", "no_float_leading_zeros", "required_exponent_notation", "case_sensitive_exponent",
+                "case_sensitive_base_prefix", "case_sensitive_base_suffix"]
+SEP_SETTERS = ["%s_%s_digit_separator" % (c, k) for k in ("internal", "leading", "trailing", "consecutive")
+               for c in ("integer", "fraction", "exponent")] + ["special_digit_separator"]
+GROUP_SETTERS = ["required_digits", "internal_digit_separator", "leading_digit_separator", "trailing_digit_separator",
+                 "consecutive_digit_separator", "digit_separator_flags", "integer_digit_separator_flags",
+                 "fraction_digit_separator_flags", "exponent_digit_separator_flags"]
+CHAR_SETTERS = ["digit_separator", "base_prefix", "base_suffix"]
+RADIX_SETTERS = ["mantissa_radix", "exponent_base", "exponent_radix", "radix"]
+
+
+def ostr(s):
+    return {"some": s is not None, "s": B(s) if s is not None else []}
+
+
+def plan_C18(tier, rng):
+    cs = Cases()
+    quick = tier == "quick"
+    RF = ["rf"]
+    i = 0
+    ep = cs.new_ep()
+
+    def builder(calls, cfgs=RF, tag=None):
+        nonlocal i, ep
+        i += 1
+        if i % 200 == 0:
+            ep = cs.new_ep()
+        cs.add({"ep": ep, "op": "builder", "calls": [list(c) for c in calls], "api": "core", "wo": False}, cfgs, tag)
+
+    # exhaustive per group: every subset of the 18 syntax flags (sampled in quick), of the 13 separator flags, every byte per char field
+    n_syn = 1 << 18
+    subsets = range(n_syn) if not quick else sorted(rng.sample(range(n_syn), 6000))
+    for m in subsets:
+        builder([(FLAG_SETTERS[k], True) for k in range(18) if (m >> k) & 1] + [("base_prefix", 120), ("base_suffix", 104)], tag="syntax-flag-subset")
+    n_sep = 1 << 13
+    subsets = range(n_sep) if not quick else sorted(rng.sample(range(n_sep), 2500))
+    for m in subsets:
+        builder([("digit_separator", 95)] + [(SEP_SETTERS[k], True) for k in range(13) if (m >> k) & 1], tag="separator-flag-subset")
+    for name in CHAR_SETTERS:
+        for b in range(256):
+            builder([(name, b), ("internal_digit_separator", True)], tag="char-field")
+            if b % 8 == 0:
+                builder([("from_radix", 16), (name, b)], tag="char-field")
+                builder([("mantissa_radix", 10), ("exponent_radix", 36), (name, b)], tag="char-field")
+    for b1 in (0, 95, 120, 104, 43, 49):
+        for b2 in (0, 95, 120, 104):
+            for b3 in (0, 95, 120, 104):
+                builder([("digit_separator", b1), ("base_prefix", b2), ("base_suffix", b3)], tag="char-distinctness")
+    for name in RADIX_SETTERS:
+        for r in list(range(0, 40)) + [64, 255]:
+            builder([(name, r)], cfgs=["rf", "pow2"], tag="radix-field")
+    # getter = last setter, call sequences incl. group setters and repeated / reverted settings
+    allset = FLAG_SETTERS + SEP_SETTERS + GROUP_SETTERS
+    for _ in range(1500 if quick else 20000):
+        k = rng.choice([1, 2, 3, 4, 6])
+        calls = []
+        for _ in range(k):
+            kind = rng.random()
+            if kind < 0.7:
+                calls.append((rng.choice(allset), rng.random() < 0.7))
+            elif kind < 0.85:
+                calls.append((rng.choice(CHAR_SETTERS), rng.choice([0, 95, 39, 120, 104, 44, 32, 57, 97, 200, 43])))
+            else:
+                calls.append((rng.choice(RADIX_SETTERS), rng.choice([2, 3, 8, 10, 16, 36, 1, 37, 0])))
+        builder(calls, tag="setter-sequence")
+    for ctor in ("new", "decimal", "binary", "octal", "hexadecimal"):
+        builder([(ctor, 0)], cfgs=["rf", "pow2"], tag="constructor")
+    for r in range(0, 40):
+        builder([("from_radix", r)], cfgs=["rf", "pow2"], tag="constructor")
+    builder([("new", 0)], cfgs=["default", "compact", "format"], tag="constructor")
+    builder([("decimal", 0)], cfgs=["default", "format"], tag="constructor")
+    for fl in FLAG_SETTERS[:16] + SEP_SETTERS[:4]:
+        builder([(fl, True)], cfgs=["format"], tag="format-only-build")
+        builder([("digit_separator", 95), (fl, True)], cfgs=["format"], tag="format-only-build")
+    # the compiled catalogue: format_is_valid / format_error / NumberFormat getters
+    ep = cs.new_ep()
+    for f in vlib.load_formats():
+        for c in ("rf", "pow2", "format", "default"):
+            cs.add({"ep": ep, "op": "fmtinfo", "fmt": f["id"], "api": "core", "wo": False}, [c], "catalogue-format")
+    # parsing with invalid formats / invalid punctuation never yields a value
+    F = fmt_tags()
+    ep = cs.new_ep()
+    inputs = ["1", "1.5e3", "-0", "", "abc", "nan", "1_000", "0x1", "+1e+5", "1e"]
+    for f in F.values():
+        if f["name"].startswith("syn2_") or f["name"].startswith("syn3_") or f["name"] in ("sep_all_c",):
+            for s_ in inputs:
+                for ty in ("f64", "i32"):
+                    for partial in (False, True):
+                        cs.parse(ep, ty, f["id"], s_, RF, wo=True, opts=pf() if ty == "f64" else dict(PI_DEFAULT), partial=partial, tag="parse-invalid-format")
+    bad_punct = [(101, 101), (46, 46), (49, 46), (101, 49), (43, 46), (101, 45), (0, 46), (101, 0), (200, 46), (101, 255), (95, 46), (101, 95)]
+    for (e_, p_) in bad_punct:
+        for fid in (0, fmt_id("sep_all_i"), radix_fmt(16), fmt_id("syn_prefix_x")):
+            for s_ in inputs[:6]:
+                for partial in (False, True):
+                    cs.parse(ep, "f64", fid, s_, RF, wo=True, opts=pf(exp=e_, point=p_), partial=partial, tag="parse-invalid-punctuation")
+    # option builders
+    ep = cs.new_ep()
+    strs = [None, "NaN", "nan", "n", "N", "Nan1", "na n", "xan", "", "n" * 50, "n" * 51, "inf", "i", "Infinity", "infinity", "in", "i" * 50,
+            "i" * 51, "1nf", "\xc4\xb0nf"]
+    for nan in strs:
+        for inf in strs[::2]:
+            for infinity in strs[1::3]:
+                i += 1
+                if quick and i % 3:
+                    continue
+                o = {"lossy": i % 2 == 0, "exp": 101, "point": 46, "nan": ostr(nan), "inf": ostr(inf), "infinity": ostr(infinity)}
+                cs.add({"ep": ep, "op": "options", "kind": "parse_float", "opts": o, "api": "core", "wo": True}, RF, "parse-float-options")
+    for (e_, p_) in bad_punct + [(101, 46), (94, 44), (9, 46), (127, 46), (1, 2)]:
+        o = {"lossy": False, "exp": e_, "point": p_, "nan": ostr("NaN"), "inf": ostr("inf"), "infinity": ostr("infinity")}
+        cs.add({"ep": ep, "op": "options", "kind": "parse_float", "opts": o, "api": "core", "wo": True}, RF, "parse-float-options")
+        o2 = {"max": 0, "min": 0, "pos": 9, "neg": -5, "round": "round", "trim": False, "exp": e_, "point": p_, "nan": ostr("NaN"), "inf": ostr("inf")}
+        cs.add({"ep": ep, "op": "options", "kind": "write_float", "opts": o2, "api": "core", "wo": True}, RF, "write-float-options")
+    for (mx, mn, ps, ng) in [(0, 0, 9, -5), (5, 3, 9, -5), (3, 5, 9, -5), (1, 1, 1, -1), (0, 7, 300, -300), (7, 0, 0, 0), (2, 9, 9, -5),
+                             (5, 5, -3, -5), (5, 5, 9, 4), (0, 0, -1, 1)]:
+        for nan in ("NaN", None, "x", "n" * 51):
+            o2 = {"max": mx, "min": mn, "pos": ps, "neg": ng, "round": "truncate" if mx % 2 else "round", "trim": mn % 2 == 1,
+                  "exp": 101, "point": 46, "nan": ostr(nan), "inf": ostr("inf")}
+            cs.add({"ep": ep, "op": "options", "kind": "write_float", "opts": o2, "api": "core", "wo": True}, RF, "write-float-options")
+    models = [("MC_Builder.tla", "MC_Builder.cfg", 8, 900)]
+    return cs, models, {"input_families": cs.tags, "configurations": ["rf", "pow2", "format", "default"]}
+
+
 PLANS = {"C01": plan_C01, "C02": plan_C02, "C03": plan_C03, "C04": plan_C04, "C05": plan_C05,
          "C06": plan_C06, "C07": plan_C07, "C08": plan_C08, "C09": plan_C09,
-         "C10": plan_C10, "C11": plan_C11, "C12": plan_C12, "C13": plan_C13, "C14": plan_C14, "C15": plan_C15, "C16": plan_C16, "C17": plan_C17, "C19": plan_C19}
+         "C10": plan_C10, "C11": plan_C11, "C12": plan_C12, "C13": plan_C13, "C14": plan_C14, "C15": plan_C15, "C16": plan_C16, "C17": plan_C17, "C18": plan_C18, "C19": plan_C19}
 
 
 ASSUME = {
